@@ -352,6 +352,84 @@ func (m *MonStaking) AfterBegin(s *Sim, req *BlockReq) {
 	if pre == nil {
 		return
 	}
+	// a punished validator may have no stake left to lose (everything already unbonding): then the punishment shows only in
+	// its frozen funds; recognise it there (funds due later through the accessor, funds due now through the balances)
+	if len(req.Byzantine) > 0 {
+		for _, c := range pre.Candidates {
+			named := false
+			for _, a := range req.Byzantine {
+				if a == TmAddrOf(c.PubKey) {
+					named = true
+				}
+			}
+			if !named || m.punished[c.ID] {
+				continue
+			}
+			decided := false
+			for _, f := range pre.FrozenFunds {
+				v := BI(f.Value)
+				if f.CandidateID != c.ID || f.Height <= h || v.Cmp(big.NewInt(20)) < 0 {
+					continue
+				}
+				ff := c16Fund{f.Height, f.Address, f.Coin, f.CandidateID, f.MoveToCandidateID, f.CandidateKey != nil}
+				preN, curN, curS := 0, 0, 0
+				for _, x := range pre.FrozenFunds {
+					if x.Height == f.Height && x.Address == f.Address && x.Coin == f.Coin && x.CandidateID == f.CandidateID && x.MoveToCandidateID == f.MoveToCandidateID && x.Value == f.Value {
+						preN++
+					}
+				}
+				for _, x := range m.funds(s, f.Height) {
+					if x.F == ff && x.V.Cmp(v) == 0 {
+						curN++
+					}
+					if x.F == ff && x.V.Cmp(floor95(v)) == 0 {
+						curS++
+					}
+				}
+				if curN < preN && curS > 0 {
+					m.punished[c.ID] = true
+					m.Res.Seen("byzantine/validator-without-stake-left:funds-slashed")
+				}
+				decided = true
+				break
+			}
+			if decided {
+				continue
+			}
+			for _, f := range pre.FrozenFunds {
+				v := BI(f.Value)
+				if f.CandidateID != c.ID || f.Height > h || f.MoveToCandidateID != 0 || v.Cmp(big.NewInt(20)) < 0 {
+					continue
+				}
+				k := c16Bal{f.Address, f.Coin}
+				b0 := m.balBefore[k]
+				if b0 == nil {
+					break
+				}
+				d := new(big.Int).Sub(m.bal(s, k), b0)
+				expA, expB := new(big.Int), new(big.Int)
+				for _, x := range pre.FrozenFunds {
+					if x.Height > h || x.MoveToCandidateID != 0 || x.Address != f.Address || x.Coin != f.Coin {
+						continue
+					}
+					xv := BI(x.Value)
+					if x.CandidateID != 0 && m.punished[x.CandidateID] {
+						xv = floor95(xv)
+					}
+					expA.Add(expA, xv)
+					if x.CandidateID == c.ID {
+						xv = floor95(xv)
+					}
+					expB.Add(expB, xv)
+				}
+				if d.Cmp(expB) == 0 && expA.Cmp(expB) != 0 {
+					m.punished[c.ID] = true
+					m.Res.Seen("byzantine/validator-without-stake-left:due-funds-released-slashed")
+				}
+				break
+			}
+		}
+	}
 	// maturity: balances of fund owners may change by exactly the non-move funds due now
 	exp := map[c16Bal]*big.Int{}
 	kinds := map[c16Bal]string{}
@@ -501,6 +579,13 @@ func (m *MonStaking) AfterTx(s *Sim, i int, raw []byte, meta *TxMeta, res *abci.
 		}
 	}
 	sort.Slice(chgs, func(a, b int) bool { return chgs[a].k.String() < chgs[b].k.String() })
+	chgStr := func() string {
+		out := ""
+		for _, c := range chgs {
+			out += fmt.Sprintf("[%s stake-%s waitlist-%s]", c.k, c.dSt, c.dWl)
+		}
+		return out
+	}
 	// frozen funds created by this transaction at the watched heights
 	var added []c16FundV
 	var hs []uint64
@@ -570,7 +655,7 @@ func (m *MonStaking) AfterTx(s *Sim, i int, raw []byte, meta *TxMeta, res *abci.
 	isLeave := ok && (p.typ == tx.TypeUnbond || p.typ == tx.TypeMoveStake)
 	if !isLeave {
 		if totalDec.Sign() > 0 {
-			m.viol(s, "stake-left-unexplained", leaveSite, fmt.Sprintf("tx type %s code %d reduced staking by %s (%v)", tname, res.Code, totalDec, chgs), int64(h), i)
+			m.viol(s, "stake-left-unexplained", leaveSite, fmt.Sprintf("tx type %s code %d reduced staking by %s %s", tname, res.Code, totalDec, chgStr()), int64(h), i)
 		}
 		if ok && p.typ == tx.TypeLock && p.decoded {
 			m.Res.Evaluations++
@@ -622,7 +707,7 @@ func (m *MonStaking) AfterTx(s *Sim, i int, raw []byte, meta *TxMeta, res *abci.
 		src = "zero-value"
 	}
 	if sumAdded.Cmp(totalDec) != 0 || (totalDec.Sign() > 0 && len(added) == 0) {
-		m.viol(s, "leave-fund-mismatch", kind, fmt.Sprintf("%s at %d: staking decreased by %s (%v) but new funds are %v", kind, h, totalDec, chgs, fundList(added)), int64(h), i)
+		m.viol(s, "leave-fund-mismatch", kind, fmt.Sprintf("%s at %d: staking decreased by %s %s but new funds are %v", kind, h, totalDec, chgStr(), fundList(added)), int64(h), i)
 	}
 	for _, f := range added {
 		if f.F.Addr != p.sender {
@@ -635,7 +720,7 @@ func (m *MonStaking) AfterTx(s *Sim, i int, raw []byte, meta *TxMeta, res *abci.
 			}
 		}
 		if len(chgs) > 0 && !match {
-			m.viol(s, "leave-fund-mismatch", kind+"/origin", fmt.Sprintf("fund %s does not name the candidate/coin that was reduced (%v)", fundStr(f), chgs), int64(h), i)
+			m.viol(s, "leave-fund-mismatch", kind+"/origin", fmt.Sprintf("fund %s does not name the candidate/coin that was reduced %s", fundStr(f), chgStr()), int64(h), i)
 		}
 		switch kind {
 		case "unbond":
